@@ -97,10 +97,11 @@ pub open spec fn type_definition_target(doc: AnalyzedSource, context: Option<Glo
         _ => None,
     }
 }
-/// "the declaration that created its array type"; an anonymous array type is created by the variable's own declaration, which is no type declaration
+/// "the declaration that created its array type": the type declaration registered under the creator's name **whose type this is**; an anonymous array type
+/// is created by the variable's own declaration (its creator is the variable's name), which is no type declaration — also when a type of that name exists
 pub open spec fn created_by(doc: AnalyzedSource, v: VariableEntry) -> Option<Range<usize>> {
     match v.data_type {
-        Some(DataType::Array { size, base_type, creator }) => if gmap(doc.table).contains_key(creator@) { match gmap(doc.table)[creator@] { GlobalEntry::Type(t) => if predefined(t.name.value@) { None } else { Some(global_name(doc, t.range, t.name)) }, GlobalEntry::Procedure(_) => None } } else { None },
+        Some(DataType::Array { size, base_type, creator }) => if gmap(doc.table).contains_key(creator@) { match gmap(doc.table)[creator@] { GlobalEntry::Type(t) => if predefined(t.name.value@) || t.data_type != v.data_type { None } else { Some(global_name(doc, t.range, t.name)) }, GlobalEntry::Procedure(_) => None } } else { None },
         _ => None,
     }
 }
@@ -123,8 +124,13 @@ pub open spec fn implementation_target(doc: AnalyzedSource, context: Option<Glob
     ensures
         answers(r, uri, declaration_target(cursor.doc, cursor.context, cursor_ident(cursor)), cursor.doc.text@), //# declaration::the_name_in_the_declaration_the_occurrence_is_bound_to
 //@end
+//~assume derived PartialEq of DataType is structural (R1)
+#[verifier::external_body]
+pub fn opt_datatype_eq(a: &Option<DataType>, b: &Option<DataType>) -> (r: bool)
+    ensures r == (*a == *b),
+{ unimplemented!() }
 //@extract lsp4spl/src/features/goto.rs :: fn type_definition :: iflet cursor
-//@ rewrite tokens_slice2 tokens_slice ident_eq_int
+//@ rewrite tokens_slice2 tokens_slice ident_eq_int opt_datatype_ne
 //@ lift pub fn type_definition_at(cursor: DocumentCursor, uri: Url) -> (r: std::result::Result<Option<Location>, Report>)
 //@ sig
     requires text_fits(cursor.doc.text@), table_ok(cursor.doc), context_ok(cursor),
